@@ -55,6 +55,30 @@ CHECKS['C12'] = dict(
     technique='symbolic execution of the Python source + Z3 QF_NRA per path; assume-guarantee summary of Exp/Log from C01',
 )
 
+CHECKS['C03'] = dict(
+    level='model_checking',
+    text='Inductive formulation over histories: symbolic execution of every constructor form (base) and of one operation '
+         'of the property\'s list from an ARBITRARY coherent transform with symbolic arguments (step); the coherence '
+         'invariant (6x1 vector, 4x4 matrix with last row 0 0 0 1, translation column = first three entries, rotation '
+         'block = exponential of the last three) and the write/read-back clauses are obligations per path. A passing step '
+         'covers histories of every length, which no bounded enumeration of sequences does.',
+    design='5/C03',
+    technique='symbolic execution of the Python source (one-step induction over an arbitrary coherent state) + Z3 per path',
+)
+CHECKS['C19'] = dict(
+    level='model_checking',
+    engine='crosshair',
+    text='CrossHair symbolic execution of the REAL Comms class with in-memory endpoint doubles against a reference model: '
+         'all operation histories up to the depth bound with symbolic operation codes/arguments (messages or no-data at every '
+         'receive), plus a one-step inductive check from an arbitrary rule-table state satisfying the representation '
+         'invariant; only "Confirmed over all paths" counts, each shard has a reachability twin, counterexamples are '
+         're-run concretely before being reported.',
+    design='5/C19',
+    technique='CrossHair (per-path symbolic execution on Z3) of the real router against a reference model; sharded by first operation',
+    note='CrossHair\'s models of int/dict/list/str; endpoints are in-memory doubles of the CommsObject interface (real UDP '
+         'sockets outside the claim); reference model in vt/xh/router_model.py',
+)
+
 NOT_APPLICABLE = {
 }
 
